@@ -214,7 +214,7 @@ func (f *vf18Fake) Run(ctx context.Context, name string, args ...string) ([]byte
 		}
 	case 8:
 		f.writeHealth()
-		if f.flavour() == "stale" { // the only flavour whose outcome IS the timeout
+		if f.flavour() == "stale" || f.flavour() == "stalep" { // the flavours whose outcome IS the timeout
 			f.sb.runner.HealthTimeout = 25 * time.Millisecond
 		} else {
 			f.sb.runner.HealthTimeout = 30 * time.Second
@@ -241,7 +241,16 @@ func (f *vf18Fake) writeHealth() {
 	case "invalid":
 		state = "weird"
 	case "stale":
-		v = "stale"
+		// the daemon that answers is NOT the expected version, but its version string is as close as it gets:
+		// the expected one plus a suffix (a comparison by prefix would accept it) ...
+		v = v + "0"
+	case "stalep":
+		// ... or a proper prefix of the expected one (a comparison the other way round would accept it)
+		if len(v) > 1 {
+			v = v[:len(v)-1]
+		} else {
+			v = "x" + v
+		}
 	}
 	payload := fmt.Sprintf(`{"state":%q,"sequence":3,"updated_at":"2026-01-01T00:00:00Z","version":%q}`, state, v)
 	_ = os.WriteFile(f.sb.runner.StateFile, []byte(payload), 0o644)
